@@ -185,6 +185,9 @@ Proof.
 Qed.
 Ltac assoc := cbn [app]; rewrite <- ?app_assoc; cbn [app]; rewrite <- ?app_assoc; reflexivity.
 
+(* the closing byte: not whitespace, not a comma, but something that may follow a value *)
+Definition closer (cl : byte) : Prop := is_wsb cl = false /\ N.eqb 44 cl = false /\ is_delimb cl = true.
+
 Section ListsComplete.
 Variable A : Type.
 Variable Rel : nat -> list byte -> A -> Prop.
@@ -196,8 +199,6 @@ Notation px := (px A item).
 Notation more_rel := (more_rel A Rel).
 Notation seps := (seps A Rel).
 
-(* the closing byte: not whitespace, not a comma, but something that may follow a value *)
-Definition closer (cl : byte) : Prop := is_wsb cl = false /\ N.eqb 44 cl = false /\ is_delimb cl = true.
 
 Lemma px_complete o w2 c a tl : ws w2 -> Rel (o + 1 + length w2) c a -> delim tl -> length (44%N :: w2 ++ c ++ tl) <= B ->
   px o (44%N :: w2 ++ c ++ tl) = Some (a, 1 + length w2 + length c).
@@ -275,10 +276,10 @@ Proof.
       assert (R2' : Rel (o + (1 + length w1 + length c1) + length wa + 1 + length wb) c2 a2) by off_eq R2.
       brewrite (px_complete _ wb c2 a2 (r ++ w3 ++ cl :: rest) Wb R2' Dr Hpx).
       cbn [Nat.add]. rewrite skipn_cons, skipn_add, skipn_app_exact, skipn_app_exact.
-      assert (M2' : more_rel (o + (1 + length w1 + length c1) + length wa + S (length wb + length c2)) r ys') by off_eq M2.
+      match goal with |- context [p_more _ _ ?off _] => assert (M2' : more_rel off r ys') by off_eq M2 end.
       assert (H1 : length (r ++ w3 ++ cl :: rest) <= length (44%N :: wb ++ c2 ++ r ++ w3 ++ cl :: rest)) by (len; blia).
       assert (H2 : length (r ++ w3 ++ cl :: rest) <= B) by (unfold l in Hb; len; blia).
-      Show. brewrite (p_more_complete cl rest Cl _ _ _ M2' _ w3 W3 H1 H2). f_equal. f_equal. len. blia. }
+      brewrite (p_more_complete cl rest Cl _ _ _ M2' _ w3 W3 H1 H2). f_equal. f_equal. len. blia. }
     assert (SC : p_seq (p_seq (p_seq (p_byte op) item) (p_rep px)) (p_byte cl) o l =
                  Some ((tt, a1, a2 :: ys', tt), 1 + length w1 + length c1 + length wa + (1 + length wb + length c2 + length r) + length w3 + 1)).
     { unfold l. eapply (p_seq_complete' _ (p_byte cl) o _ ([op] ++ w1 ++ c1 ++ wa ++ 44%N :: wb ++ c2 ++ r) w3 [cl] rest); [assoc|exact SB|len; blia|exact W3|exact Cw| |len; blia].
@@ -286,8 +287,10 @@ Proof.
     unfold p_map at 1. fold px. rewrite SC. f_equal. f_equal. len. blia.
 Qed.
 
+End ListsComplete.
+
 (* the empty list: the first alternative fails on the closing byte *)
-Lemma p_list_complete_empty op cl o w1 rest : closer cl -> ws w1 -> (forall o' rest', item o' (cl :: rest') = None) ->
+Lemma p_list_complete_empty {A} (item : P A) op cl o w1 rest : closer cl -> ws w1 -> (forall o' rest', item o' (cl :: rest') = None) ->
   p_list op cl item o (op :: w1 ++ cl :: rest) = Some ([], length w1 + 2).
 Proof.
   intros (Cw & Cc & Cd) W1 Hf. unfold p_list, p_or.
@@ -299,4 +302,3 @@ Proof.
   rewrite skipn_cons, skipn_app_exact, p_byte_complete. f_equal. f_equal. blia.
 Qed.
 
-End ListsComplete.
